@@ -69,6 +69,14 @@ func (b *builder) otherHdr() gen.HdrSpec {
 func (b *builder) variant(base gen.MsgSpec) (gen.MsgSpec, string) {
 	m := cloneMsg(base)
 	var what []string
+	// Contact is fingerprinted for INVITE only: in any other request it is one of the "other" headers
+	invite := base.Method() == "INVITE"
+	fp := func(kind string) bool {
+		if kind == "contact" {
+			return invite
+		}
+		return fingerprinted[kind]
+	}
 	ops := b.r.Range(1, 3)
 	for ; ops > 0; ops-- {
 		switch b.r.Intn(10) {
@@ -76,6 +84,12 @@ func (b *builder) variant(base gen.MsgSpec) (gen.MsgSpec, string) {
 			for k := b.r.Range(1, 3); k > 0; k-- {
 				p := b.r.Intn(len(m.Hdrs) + 1)
 				h := b.otherHdr()
+				if !invite && b.r.Chance(1, 3) {
+					h = plainHdr(b.r.Pick([]string{"Contact", "m", "CONTACT"}), "<sip:"+strconv.Itoa(b.r.Intn(1000))+"@"+b.g.Host()+">")
+					if b.r.Chance(1, 2) {
+						p = len(m.Hdrs) // behind every fingerprinted header
+					}
+				}
 				m.Hdrs = append(m.Hdrs, gen.HdrSpec{})
 				copy(m.Hdrs[p+1:], m.Hdrs[p:])
 				m.Hdrs[p] = h
@@ -84,7 +98,7 @@ func (b *builder) variant(base gen.MsgSpec) (gen.MsgSpec, string) {
 		case 1: // remove other headers
 			var keep []gen.HdrSpec
 			for _, h := range m.Hdrs {
-				if !fingerprinted[h.Kind] && h.Kind != "content-length" && b.r.Chance(1, 2) {
+				if !fp(h.Kind) && h.Kind != "content-length" && b.r.Chance(1, 2) {
 					continue
 				}
 				keep = append(keep, h)
@@ -174,7 +188,7 @@ func (b *builder) variant(base gen.MsgSpec) (gen.MsgSpec, string) {
 					first = v[:c]
 				}
 				if bi := strings.Index(first, ";branch"); bi >= 0 && !strings.Contains(first, "\"") {
-					ins := b.r.Pick([]string{";x=\"a,b\"", ";y=\"p;q\"", ";rport", ";ttl=1", ";z=\"\\\"\"", ";received=10.0.0.1", ";maddr=a.b-c_d", ";w=0123456789abcdef", ";e=\"\"", ";e=\"\";f=1", ";g=\"\\\\\"", ";x=a`b", ";k=v=w", ";pad=YWI=", ";=v", ";a b=c"})
+					ins := b.r.Pick([]string{";x=\"a,b\"", ";y=\"p;q\"", ";rport", ";ttl=1", ";z=\"\\\"\"", ";received=10.0.0.1", ";maddr=a.b-c_d", ";w=0123456789abcdef", ";e=\"\"", ";e=\"\";f=1", ";g=\"\\\\\"", ";x=a`b", ";k=v=w", ";pad=YWI=", ";=v", ";a b=c", ";x=\"a\x7f\"", ";y=\"p\x01;q\"", ";z=\"a\x7fb;c\";w=1"})
 					m.Hdrs[i].Val = v[:bi] + ins + v[bi:]
 					what = append(what, "via-params")
 				}
